@@ -88,6 +88,34 @@ func factsC18() {
 	add("C18", "instWgAddBeforeStart", "Bool", addFact("run", "process.StartWith"),
 		"process_set.go (*ProcessSet).run: wg.Add(1) and go ps.tracerProcess(...) precede process.StartWith(ctx, startFlowNode)")
 
+	// 2c. wg.Add(1) precedes the `go ps.tracerProcess(...)` it accounts for, at every site (the model registers and
+	//     spawns a watcher in one step; with the order reversed a watcher could call Done before the Add).
+	addSpawn := ""
+	{
+		sites, ok := 0, true
+		for _, fn := range []string{"StartAll", "run"} {
+			fd := funcDecl(f, "ProcessSet", fn)
+			if fd == nil || fd.Body == nil {
+				ok = false
+				continue
+			}
+			spawn := callPosOutsideFuncLit(fd.Body, "tracerProcess")
+			add := callPosOutsideFuncLit(fd.Body, "wg.Add")
+			if spawn == token.NoPos {
+				continue
+			}
+			sites++
+			if add == token.NoPos || add > spawn {
+				ok = false
+			}
+		}
+		if sites > 0 {
+			addSpawn = boolLit(ok)
+		}
+	}
+	add("C18", "wgAddBeforeSpawn", "Bool", addSpawn,
+		"process_set.go StartAll / run: wg.Add(1) precedes go ps.tracerProcess(...) at every site")
+
 	// 3. Is close(ps.done) executed at most once? true iff every `close(<x>.done)` site is nested in a `<once>.Do(func…)`
 	//    call, or the single site sits in a goroutine spawned outside WaitUntilComplete. false iff a site is reachable
 	//    from every WaitUntilComplete call unguarded.
